@@ -198,7 +198,8 @@ def run(ctx):
                 trimmed, kept = T.select(arg, c, True), T.select(arg, c, False)
                 ok = c == ("cmp", ">", T.sub(cnt, n)) and kept == head_s[0] and trimmed == ("s", head_s[0], ("slice", T.NONE, n, T.NONE))
             ctx.decide(ok, "C10.init", construct, loc_of(di, lk[0].node), "final set == accumulated rows trimmed to [:n] when more than n were drawn",
-                       f"likelihood evaluated on {T.show(arg)[:200]}", disc="trim")
+                       f"the set handed to the likelihood is {T.show(arg)[:200]}, not the accumulated (mask-selected, concatenated) population trimmed to [:n]: "
+                       "its rows need not pair each coordinate with its own prior / proposal density, or its size is not n", disc="trim")
             okr = ret == arg and ev.heap.get((arg, "log_likelihood")) is not None and is_call_on(ev.heap[(arg, "log_likelihood")], "_log_likelihood", arg)
             ctx.decide(okr, "C10.init", construct, loc_of(di, lk[0].node), "the likelihood of the final set is stored on it and that set is returned",
                        "the returned set is not the one whose likelihood was evaluated and stored", disc="final")
@@ -289,6 +290,8 @@ def run(ctx):
         if f.ident == PRIMITIVE:
             continue
         for node, desc, st, name in own.analyse(f):
+            if st == own.ELEMENT:
+                continue  # an item of a container (e.g. an HDF5 dataset looked up by name): not an array of the caller's
             n_sinks += 1
             ctx.decide(st == own.OWNED, "C10.own", f.ident, loc_of(f, node), f"{desc}: the array written into was created in this function (copy / new array)",
                        f"{desc} writes into `{name}`, which may be (a view of) an argument or attribute: the caller's array -- e.g. the coordinates of a population whose "
@@ -338,6 +341,7 @@ MUTANTS += [
     M("nan patch written into the cached likelihood", "src/aspire/samplers/smc/base.py", "log_prob = update_at_indices(\n            log_prob, self.xp.isnan(log_prob), -self.xp.inf\n        )", "update_at_indices(samples.log_likelihood, self.xp.isnan(log_prob), -self.xp.inf)", "C10.own"),
 ]
 NEUTRALS = [
+    M("checkpoint dataset through a local", "src/aspire/utils.py", "target[dsetname][:] = bdata", "dset = target[dsetname]\n    dset[:] = bdata"),
     M("enlargement whenever a final size is requested", "src/aspire/samplers/smc/base.py", "if n_final_samples is not None and len(samples.x) != n_final_samples:", "if n_final_samples is not None:"),
     M("forward copies through a temporary", _T, "x = copy_array(x, xp=self.xp)\n        x = self.xp.atleast_2d(x)\n        log_abs_det_jacobian = self.xp.zeros(len(x), device=self.device)\n        if self.periodic_parameters:",
       "x2 = copy_array(x, xp=self.xp)\n        x = self.xp.atleast_2d(x2)\n        log_abs_det_jacobian = self.xp.zeros(len(x), device=self.device)\n        if self.periodic_parameters:"),
